@@ -20,5 +20,11 @@ def jobs(tier, seed):
     # with a header stored before: the space-before-first option must stop applying
     J += deepen(P, G, 'resp-after-header', lambda n: sc('resp', n, prefix=RESP_LINE + b'a:b\r\n', api='cfg', fl=RESP_HDR_SYM, cap=2),
                 range(3, T(tier, 5, 7) + 1), T(tier, 100, 900), 'response, start line + "a:b" line + every {n}-byte remainder, 4 header options symbolic', 4)
-    if tier == 'thorough': J += sliding_families(P, G, tier)
+    J += sliding_families(P, G, tier, step=T(tier, 6, 1), pool=T(tier, ('req-post', 'resp-fold'), None))
+    # a header line longer than one / two vector widths, then the empty line, then a long body (vector scanners must not run past the line end)
+    for variant in ('x86-avx2-ct', 'x86-sse42-ct', 'swar-rel'):
+        for fill in (14, 31, 33, 47, 62):
+            jb = product_job(P, f'longline-{variant}-{fill}', G, sc('resp', 2, prefix=b'HTTP/1.1 200 OK\r\nX-Token: ' + b'a' * fill, suffix=b'\r\n\r\n' + b'b' * 100, api='parse', cap=2, variant=variant),
+                             T(tier, 60, 300), f'response with a header value of {fill}+2 bytes (2 symbolic) followed by the empty line and 100 body bytes ({variant})', family=f'longline-{variant}', mandatory=False)
+            jb.small = True; J.append(jb)
     return J
